@@ -24,8 +24,9 @@
               i64 u64       : only (a) as the target of a cast applied to a
                               narrow value (value always fits) and (b) an i64
                               parameter with a 32-bit value directly under a
-                              narrowing cast (the specification's own example
-                              `i8(i64_val)`).
+                              narrowing cast to i8/i16/i32 (the specification's
+                              own example `i8(i64_val)`); i64 -> u8/u16 is not
+                              generated (narrowing or saturation first?).
    expressions  typed literal T(n) (0 <= n <= max T), parameter, local,
               unary - (signed types), not, + - * / %, == != < > <= >=,
               and / or, casts T(e), parentheses.
@@ -81,13 +82,17 @@
 
  The code AS WRITTEN deviates from this specification (named deviations,
  reproduced on the real compiler by the check, evaluated by the as-written
- model `eval_aswritten` in tools/props/c19.py):
-   Dev_NoArithNorm  results of + - * unary- on i8..u16 stay un-normalised in
-                    the 32-bit register (no wrap), so a following / % compare
-                    cast-to-wider, not/and/or/if sees the wrong value;
-   Dev_NoSatCast    casts between types carried in the same WASM register are
-                    no-ops: no saturation [C3];
-   Dev_NoTruncCast  ... and no truncation [C2].
+ register model `model(p, args, devs)` in tools/props/c19.py):
+   Dev arith  results of + - * unary- on i8..u16 stay un-normalised in the
+              32-bit register (no wrap [W]), so a following / % comparison,
+              widening cast, not/and/or/if sees the wrong value.  STILL AS
+              WRITTEN (known finding C19-narrow-arith-not-wrapped: 32 arc
+              specs pin the un-normalised opcode sequences).
+   Dev sat    casts between types carried in the same WASM register were
+              no-ops: no saturation [C3].      REPAIRED in /repo 676fc6a.
+   Dev trunc  ... and no truncation [C2].      REPAIRED in /repo 676fc6a.
+ A mismatch that only a repaired deviation explains is reported as a
+ regression under its own signature.
  ***************************************************************************)
 EXTENDS Integers, Sequences, TLC
 
